@@ -63,9 +63,17 @@ def run_entry(text, entry, judge=None, opts=None, extra_modules=(), guide=None):
                wall_s=round(time.time() - t0, 3), reached=dict(ex.reached), forks=ex.forks,
                steps=sum(r.steps for r in ex.results), funcs=sorted(ex.funcs_run),
                inputs=max([len(r.inputs) for r in ex.results] or [0]),
-               sample=_sample(ex))
+               sample=_sample(ex), notes=_notes(ex))
     res['_ex'] = ex
     return res
+
+
+def _notes(ex):
+    out = []
+    for r in ex.results[:50]:
+        if r.status == 'ok':
+            out.append([(k, v) for k, v in [(x[0], x[1]) for x in r.notes if len(x) == 2] if isinstance(v, int)][:60])
+    return out
 
 
 def _sample(ex):
